@@ -128,18 +128,18 @@ structure Ring where
   sound : Bool := true
   deriving DecidableEq, Repr
 
-/-- effect of `ReadRune` on the ring: a pushed-back rune is served from the buffer, otherwise a
-    rune is fetched from the reader, `put` (overwriting the oldest slot) and `get` -/
+/-- effect of `ReadRune` on the ring: a pushed-back rune is served from the buffer (`pend-1`,
+    `held+1`), otherwise a rune is fetched from the reader, `put` (overwriting the oldest slot) and
+    `get` (`held+1`, at most 4).  Both cases in one formula — they coincide because
+    `held + pend ≤ 4` (there are 4 slots), see `Ring.read_cases` in Proofs/LexerRing.lean -/
 def Ring.read (g : Ring) : Ring :=
-  if g.pend = 0 then { g with held := min (g.held + 1) 4 }
-  else { g with pend := g.pend - 1, held := g.held + 1 }
+  { g with pend := g.pend - 1, held := min (g.held + 1) 4 }
 
 /-- effect of `UnreadRune`: `start--`.  It is sound only if the slot behind `start` still holds the
     rune that was read last (`held ≥ 1`) and `start` does not run into `end` (4 pushed-back runes
     would make the buffer look empty) -/
 def Ring.unread (g : Ring) : Ring :=
-  if 1 ≤ g.held ∧ g.pend ≤ 2 then { g with pend := g.pend + 1, held := g.held - 1 }
-  else { g with sound := false }
+  { pend := g.pend + 1, held := g.held - 1, sound := g.sound && decide (1 ≤ g.held ∧ g.pend ≤ 2) }
 
 structure Lexer where
   hist : List Char := []
@@ -171,7 +171,7 @@ def next (l : Lexer) : Option (Char × Lexer) :=
 /-- `l.backup()` -/
 def backup (l : Lexer) : Lexer :=
   match l.hist with
-  | [] => { l with ring := { l.ring with sound := false } }
+  | [] => { l with rest := '\x00' :: l.rest, ring := l.ring.unread }   -- a fresh slot holds the zero rune; unsound
   | r :: h => { l with hist := h, rest := r :: l.rest, ring := l.ring.unread }
 
 /-- `l.accept(r)` -/
@@ -366,6 +366,14 @@ def escapeSequence (fuel : Nat) (l : Lexer) : EscRes :=
     else if r = 'x' then hexadecimalEscapeSequence cfg fuel (accept l1 r)
     else .ok (.invalid, accept l1 r)
 
+/-- how every caller of `escapeSequence(cont)` continues: Go returns the invalid token from inside
+    the escape function, or calls `cont()` -/
+def escThen {α : Type} (r : EscRes) (onInvalid onCont : Lexer → Except Err (α × Lexer)) : Except Err (α × Lexer) :=
+  match r with
+  | .error e => .error e
+  | .ok (.invalid, l') => onInvalid l'
+  | .ok (.cont, l') => onCont l'
+
 /-! ## quoted tokens -/
 
 /-- the end of `quotedToken` after the closing quote: "Checks if it contains invalid octal or
@@ -389,16 +397,11 @@ def quotedToken : Nat → Lexer → Res
           else finishQuoted (backup l3)
       else if r = '\\' then
         let l2 := accept l1 r
-        let esc (l : Lexer) : Res :=
-          match escapeSequence cfg fuel l with
-          | .error e => .error e
-          | .ok (.invalid, l') => emit .invalid l'
-          | .ok (.cont, l') => quotedToken fuel l'
         match rawNext l2 with
-        | none => esc l2
+        | none => escThen (escapeSequence cfg fuel l2) (emit .invalid) (quotedToken fuel)
         | some (r', l3) =>
           if r' = '\n' then quotedToken fuel (accept l3 r')
-          else esc (backup l3)
+          else escThen (escapeSequence cfg fuel (backup l3)) (emit .invalid) (quotedToken fuel)
       else emit .invalid (accept l1 r)
 
 def doubleQuotedListToken : Nat → Lexer → Res
@@ -420,11 +423,7 @@ def doubleQuotedListToken : Nat → Lexer → Res
         | none => .error .eof
         | some (r', l3) =>
           if r' = '\n' then doubleQuotedListToken fuel (accept l3 r')
-          else
-            match escapeSequence cfg fuel (backup l3) with
-            | .error e => .error e
-            | .ok (.invalid, l') => emit .invalid l'
-            | .ok (.cont, l') => doubleQuotedListToken fuel l'
+          else escThen (escapeSequence cfg fuel (backup l3)) (emit .invalid) (doubleQuotedListToken fuel)
       else doubleQuotedListToken fuel (accept l1 r)
 
 /-! ## numbers -/
@@ -500,10 +499,7 @@ def characterCodeConstant (fuel : Nat) (l : Lexer) : Res :=
       | none => emit .integer (accept l2 '\x00')
       | some (r', l3) => emit .integer (accept l3 r')
     else if r = '\\' then
-      match escapeSequence cfg fuel (accept l1 r) with
-      | .error e => .error e
-      | .ok (.invalid, l') => emit .invalid l'
-      | .ok (.cont, l') => emit .integer l'
+      escThen (escapeSequence cfg fuel (accept l1 r)) (emit .invalid) (emit .integer)
     else if isGraphicChar r ∨ isAlphanumericChar cfg r ∨ isSoloChar r ∨ r = ' ' then emit .integer (accept l1 r)
     else emit .invalid (accept l1 r)
 
